@@ -462,3 +462,147 @@ def io1(F, R):
                 R.bad(g, "self-recursion", "%s calls itself (unbounded recursion: method resolution picked this very method)" % g.npath, g.loc(b))
     if n == 0:
         R.ok(None, "no-self-recursion", "no function of the crate resolves a call to itself")
+
+
+# ---------------------------------------------------------------------------------------
+# RD1 / WR1 / SK5: the offset -> (block, offset-in-block, available) translation and the copy loops
+
+
+def _is_fdd_comp(t, k):
+    """term is component k of a find_data_on_disk result (through `?` or a match variable)"""
+    t = strip_refs(t)
+    if t[0] == "place" and t[2] and t[2][-1] == str(k):
+        return has_sub(t[1], lambda q: q[0] == "call" and q[1] and path_matches(q[1], "find_data_on_disk")) or t[1][0] == "var"
+    return False
+
+
+@rule("SK5", ["C01"], floor=3,
+      doc="find_data_on_disk returns (cluster_to_block(cursor cluster) + (desired - cursor offset)/512, desired % 512, 512 - desired % 512) after advancing the cursor by (desired - cursor offset)/bytes_per_cluster links, adding bytes_per_cluster per link")
+def sk5(F, R):
+    fn = F.fn(VMD + "::find_data_on_disk")
+    oks = ok_returns(fn)
+    R.require(len(oks) == 1, fn, "single-ok", "expected one Ok((block, offset, avail)) return", fn.loc(0))
+    for (b, i, v) in oks:
+        ok = v[0] == "agg" and len(v[3]) == 3
+        if ok:
+            blk, off, av = v[3]
+            p_blk = ("call", "Add::add", [("call", "FatVolume::cluster_to_block", ["_", ("place", ("arg", "start"), ("*", "1"))]),
+                                          ("agg", "BlockCount", [("bin", "Div", ("bin", "Sub", ("arg", "desired_offset"), ("place", ("arg", "start"), ("*", "0"))), ("c", 512))])])
+            ok = tmatch(blk, p_blk) is not None
+            ok = ok and tmatch(off, ("cast", ("bin", "Rem", ("arg", "desired_offset"), ("c", 512)))) is not None
+            ok = ok and tmatch(av, ("bin", "Sub", ("c", 512), ("cast", ("bin", "Rem", ("arg", "desired_offset"), ("c", 512))))) is not None
+        R.require(ok, fn, "result-formula", "find_data_on_disk must return (cluster_to_block(start.1) + (desired - start.0)/512, desired %% 512, 512 - desired %% 512); got %s" % tstr(v), fn.loc(b, i))
+    # loop trip count and per-link advance
+    rng = None
+    for b, i, s in fn.stmts():
+        if s["k"] == "Assign" and s["rv"]["k"] == "Aggregate" and s["rv"].get("adt", "").endswith("Range"):
+            rng = [fn.term_of_operand(o, b) for o in s["rv"]["ops"]]
+    okr = rng is not None and rng[0][:2] == ("c", 0) and tmatch(rng[1], ("bin", "Div", ("bin", "Sub", ("arg", "desired_offset"), ("place", ("arg", "start"), ("*", "0"))), ("call", "FatVolume::bytes_per_cluster"))) is not None
+    R.require(okr, fn, "link-count", "the cursor must advance by (desired_offset - start.0) / bytes_per_cluster links; loop range is %s" % ([tstr(x) for x in rng] if rng else None), fn.loc(0))
+    adv = [(b, i) for b, i, s in fn.stmts() if s["k"] == "Assign" and s["p"]["proj"] and fn.place_str(s["p"]) == "(*start).0"
+           and tmatch(fn.term_of_rvalue(s["rv"], b), ("bin", "Add", ("place", ("arg", "start"), ("*", "0")), ("call", "FatVolume::bytes_per_cluster"))) is not None]
+    R.require(len(adv) == 1, fn, "offset-advance", "each FAT link must add bytes_per_cluster to the cursor offset", fn.loc(0))
+    bpc = F.fn(FATVOL + "::bytes_per_cluster")
+    rets = [bpc.term_of_rvalue(s["rv"], b) for b, i, s in bpc.stmts() if s["k"] == "Assign" and s["p"]["l"] == 0 and not s["p"]["proj"]]
+    R.require(len(rets) == 1 and tmatch(rets[0], ("bin", "Mul", ("call", "From::from", [("place", ("arg", "self"), ("*", "blocks_per_cluster"))]), ("c", 512))) is not None, bpc, "bytes_per_cluster", "bytes_per_cluster must be blocks_per_cluster * 512", bpc.loc(0))
+
+
+@rule("RD1", ["C01"], floor=5,
+      doc="read loop: to_copy = min(block_avail, space, file.left()); buffer[read..read+to_copy] <- block[block_offset..block_offset+to_copy] of the block found for (cursor, file start, current offset); then read += to_copy, space -= to_copy, seek_from_current(to_copy); loop while space > 0 && !eof; returns Ok(read)")
+def rd1(F, R):
+    fn = F.fn(VM + "::read")
+    cps = [(b, t) for b, t in fn.calls() if (callee_of(t) or "").endswith("copy_from_slice")]
+    R.require(len(cps) == 1, fn, "copy-site", "expected one copy into the caller's buffer", fn.loc(0))
+    for b, t in cps:
+        dst = fn.term_of_operand(t["args"][0], b)
+        src = fn.term_of_operand(t["args"][1], b)
+        rd = find_sub(dst, ("agg", "Range", ["$a", "$b"]))
+        rs = find_sub(src, ("agg", "Range", ["$a", "$b"]))
+        ok = rd is not None and rs is not None
+        tc = None
+        if ok:
+            e = tmatch(rd["$b"], ("bin", "Add", "$x", "$n"))
+            ok = e is not None and e["$x"] == rd["$a"] and strip_refs(rd["$a"])[0] == "var"
+            tc = e["$n"] if e else None
+        if ok:
+            e2 = tmatch(rs["$b"], ("bin", "Add", "$x", "$n"))
+            ok = e2 is not None and e2["$x"] == rs["$a"] and e2["$n"] == tc and _is_fdd_comp(rs["$a"], 1)
+        R.require(ok, fn, "copy-ranges", "the copy must be buffer[read..read+n] <- block[block_offset..block_offset+n] with the same n", fn.loc(b))
+        okn = tc is not None and tmatch(tc, ("call", "min", [("call", "min", ["$av", "$space"]), ("cast", ("call", "FileInfo::left"))])) is not None
+        if okn:
+            e3 = tmatch(tc, ("call", "min", [("call", "min", ["$av", "$space"]), "_"]))
+            okn = _is_fdd_comp(e3["$av"], 2) and strip_refs(e3["$space"])[0] == "var"
+        R.require(okn, fn, "to_copy", "to_copy must be min(block_avail, space, file.left()); got %s" % (tstr(tc)[:200] if tc else None), fn.loc(b))
+        R.require("buffer" in tstr(dst) and has_sub(src, lambda q: q[0] == "call" and q[1] and path_matches(q[1], "BlockCache::read")), fn, "copy-direction", "data must flow from the cached block into the caller's buffer", fn.loc(b))
+        # bookkeeping after the copy
+        names = {}
+        for l, loc in enumerate(fn.locals):
+            ds = var_def_terms(fn, l)
+            if len(ds) == 2 and any(d[:2] == ("c", 0) for d in ds) and any(tmatch(d, ("bin", "Add", ("var", "_"), "_")) is not None for d in ds):
+                names["read"] = l
+            if len(ds) == 2 and any(tmatch(d, ("call", "len")) is not None or "len(" in tstr(d) or "PtrMetadata" in tstr(d) for d in ds) and any(tmatch(d, ("bin", "Sub", ("var", "_"), "_")) is not None for d in ds):
+                names["space"] = l
+        okb = "read" in names and "space" in names
+        if okb:
+            dr = [d for d in var_def_terms(fn, names["read"]) if d[0] == "bin"][0]
+            dsp = [d for d in var_def_terms(fn, names["space"]) if d[0] == "bin"][0]
+            okb = dr[3] == tc and dsp[3] == tc
+        R.require(okb, fn, "bookkeeping", "after the copy: read += to_copy and space -= to_copy with the same to_copy", fn.loc(b))
+        sk = [(bb, tt) for bb, tt in fn.calls() if call_matches(tt, ("FileInfo::seek_from_current",))]
+        oks = len(sk) == 1 and tmatch(fn.term_of_operand(sk[0][1]["args"][1], sk[0][0]), ("cast", "$n")) is not None and tmatch(fn.term_of_operand(sk[0][1]["args"][1], sk[0][0]), ("cast", "$n"))["$n"] == tc
+        R.require(oks, fn, "advance-offset", "the file offset must advance by to_copy (seek_from_current(to_copy))", fn.loc(b))
+    # the block read is the one find_data_on_disk computed for (cursor, entry.cluster, current_offset)
+    fd = [(b, t) for b, t in fn.calls() if call_matches(t, ("find_data_on_disk",))]
+    okf = len(fd) == 1
+    if okf:
+        a = [tstr(fn.term_of_operand(x, fd[0][0])) for x in fd[0][1]["args"]]
+        okf = a[3].endswith(".entry.cluster") and a[4].endswith(".current_offset") and "open_files" in a[3] and "open_files" in a[4]
+    R.require(okf, fn, "lookup-args", "find_data_on_disk must be asked for (file start cluster, current offset) of the open file", fn.loc(0))
+    rd_ = [(b, t) for b, t in fn.calls() if call_matches(t, ("BlockCache::read",))]
+    R.require(len(rd_) == 1 and _is_fdd_comp(fn.term_of_operand(rd_[0][1]["args"][1], rd_[0][0]), 0), fn, "block=lookup.0", "the block read must be the one find_data_on_disk returned", fn.loc(0))
+    for (b, i, v) in ok_returns(fn):
+        R.require("read" in locals().get("names", {}) and strip_refs(v) == ("var", names["read"], fn.local_name(names["read"])), fn, "returns-count", "read() must return the number of bytes copied", fn.loc(b, i))
+
+
+@rule("WR1", ["C01", "C04"], floor=4,
+      doc="write loop: to_copy = min(block_avail, bytes_to_write - written); block[block_offset..block_offset+to_copy] <- buffer[written..written+to_copy]; written += to_copy; new_offset = current_offset + to_copy, seek_from_start(new_offset); bytes_to_write = min(buffer.len(), MAX_FILE_SIZE - current_offset); the loop runs while written < bytes_to_write")
+def wr1(F, R):
+    fn = F.fn(VM + "::write")
+    cps = [(b, t) for b, t in fn.calls() if (callee_of(t) or "").endswith("copy_from_slice")]
+    R.require(len(cps) == 1, fn, "copy-site", "expected one copy into the cached block", fn.loc(0))
+    for b, t in cps:
+        dst = fn.term_of_operand(t["args"][0], b)
+        src = fn.term_of_operand(t["args"][1], b)
+        rd = find_sub(dst, ("agg", "Range", ["$a", "$b"]))
+        rs = find_sub(src, ("agg", "Range", ["$a", "$b"]))
+        ok = rd is not None and rs is not None
+        tc = None
+        if ok:
+            e = tmatch(rd["$b"], ("bin", "Add", "$x", "$n"))
+            ok = e is not None and e["$x"] == rd["$a"] and _is_fdd_comp(rd["$a"], 1)
+            tc = e["$n"] if e else None
+        if ok:
+            e2 = tmatch(rs["$b"], ("bin", "Add", "$x", "$n"))
+            ok = e2 is not None and e2["$x"] == rs["$a"] and e2["$n"] == tc and strip_refs(rs["$a"])[0] == "var" and "buffer" in tstr(src)
+        R.require(ok, fn, "copy-ranges", "the copy must be block[block_offset..block_offset+n] <- buffer[written..written+n] with the same n", fn.loc(b))
+        okn = False
+        if tc is not None:
+            e3 = tmatch(tc, ("call", "min", ["$av", ("bin", "Sub", "$total", "$written")]))
+            okn = e3 is not None and _is_fdd_comp(e3["$av"], 2) and e3["$written"] == (rs["$a"] if rs else None)
+            if okn:
+                tot = e3["$total"]
+                okn = tmatch(tot, ("call", "min", [("any", ("call", "len"), ("un", "PtrMetadata", "_")), "_"])) is not None and "MAX_FILE_SIZE" in tstr(tot) and "current_offset" in tstr(tot)
+        R.require(okn, fn, "to_copy", "to_copy must be min(block_avail, min(buffer.len(), MAX_FILE_SIZE - current_offset) - written); got %s" % (tstr(tc)[:220] if tc else None), fn.loc(b))
+        # written += to_copy
+        wv = strip_refs(rs["$a"]) if rs else None
+        okw = wv is not None and wv[0] == "var" and sorted(tstr(d)[:14] for d in var_def_terms(fn, wv[1])) == sorted(["0", "Add(written, m"[:14]]) and any(d[0] == "bin" and d[3] == tc for d in var_def_terms(fn, wv[1]))
+        R.require(okw, fn, "written+=to_copy", "written must start at 0 and advance by to_copy", fn.loc(b))
+    sk = [(b, t) for b, t in fn.calls() if call_matches(t, ("FileInfo::seek_from_start",))]
+    oks = len(sk) == 1
+    if oks:
+        a = fn.term_of_operand(sk[0][1]["args"][1], sk[0][0])
+        oks = tmatch(a, ("bin", "Add", ("place", "_"), ("cast", "_"))) is not None and "current_offset" in tstr(a)
+    R.require(oks, fn, "advance-offset", "the file offset must become current_offset + to_copy", fn.loc(0))
+    ul = [(b, t) for b, t in fn.calls() if call_matches(t, ("FileInfo::update_length",))]
+    okl = len(ul) == 1 and sk and tstr(fn.term_of_operand(ul[0][1]["args"][1], ul[0][0])) == tstr(fn.term_of_operand(sk[0][1]["args"][1], sk[0][0]))
+    R.require(okl, fn, "length=new_offset", "the recorded length must become the new offset when the file grows", fn.loc(0))
